@@ -175,7 +175,7 @@ def grad_constraint(p, res):
             for k in range(2):
                 cfg = f"{'complex128' if cplx else 'float64'},shape={Bn}x256,input{k}"
                 active = inputs((Bn, 16), k, 3.0)
-                parts0 = [torch.full((Bn, 256), 0.01, dtype=torch.float64)] + ([torch.full((Bn, 256), -0.01, dtype=torch.float64)] if cplx else [])
+                parts0 = [torch.full((Bn, 256), 1e-5, dtype=torch.float64)] + ([torch.full((Bn, 256), -1e-5, dtype=torch.float64)] if cplx else [])  # tiny background: >8 clipping passes are needed
                 idx = torch.arange(16) * 16 + 3
                 parts0[0][:, idx] = active
                 if cplx:
